@@ -37,9 +37,9 @@ fn main() {
         mon::c07::miri_main(&args);
         return;
     }
-    if property == "C09-order" {
+    if property == "HISTORY" {
         api::install_panic_hook();
-        mon::c09::order_child(args[2].parse().unwrap_or(0));
+        mon::history::child(args[2].parse().unwrap_or(0));
         return;
     }
     if property == "C09-vclock-history" {
